@@ -76,6 +76,20 @@ def scenarios(tier):
         for a, b, c in itertools.combinations(sel[:12], 3):
             if all(scen.compatible(x, y, None) for x, y in ((a, b), (a, c), (b, c))) and len({(x["b"], x["k"]) for x in (a, b, c)}) == 3:
                 out.append((spec, [a, b, c]))
+    # patches with constraints: the generated prologue/epilogue (register save order, scratch choice)
+    # must not depend on hash seeds either
+    CONS = (
+        {"preserve_caller_saved_registers": True},
+        {"preserve_caller_saved_registers": True, "clobbers_flags": True, "scratch_registers": 2},
+        {"clobbers_registers": ["rax", "rcx", "r11", "rbx"], "clobbers_flags": True},
+        {"scratch_registers": 3, "reads_registers": ["rax"]},
+        {"align_stack": True, "clobbers_registers": ["rdx", "rsi"]},
+    )
+    spec = c03.make_spec("call", "same", 1, True)
+    for ci, cons in enumerate(CONS):
+        for blk, k in (("X", 0), ("X", 2), ("Y", 0), ("K", 1)):
+            out.append((spec, [{"op": "ins", "b": blk, "k": k, "p": [["p", 0]], "cons": cons}]))
+        out.append((spec, [{"op": "ins", "b": "X", "k": 1, "p": [["p", 0]], "cons": cons}, {"op": "ins", "b": "Z", "k": 0, "p": [["p", 0]], "cons": CONS[(ci + 1) % len(CONS)]}]))
     return [(s, scen.retag(m)) for s, m in out]
 
 
@@ -314,7 +328,7 @@ def run_task(task):
             if len(set(vals.values())) != 1:
                 bad = sorted(k for k, v in vals.items() if v != vals[ref_key])
                 res.bad({"kind": "seeds", "tier": tier, "index": lo + i, "runs": [list(k) for k in sorted(runs)]},
-                        [C.D("result-depends-on-hash-seed-or-uuids", r_differs=str(bad[0][1]), differing=[list(b) for b in bad])])
+                        [C.D("result-depends-on-hash-seed-or-uuids", differing=[list(b) for b in bad])])
         res.sample({"kind": "seeds", "scenarios": [lo, hi], "runs": [list(k) for k in sorted(runs)]}, cap=1)
         return res
     alts = BOUNDS[tier]["alternatives"]
@@ -365,6 +379,6 @@ def replay(case):
         i = case["index"]
         runs = {tuple(k): seed_run(case["tier"], i, i + 1, k[0], k[1], {"asc": 0, "desc": 7, "random": 131}[k[1]]) for k in case["runs"]}
         if len({v[0] for v in runs.values()}) != 1:
-            return [C.D("result-depends-on-hash-seed-or-uuids", r_differs="?")]
+            return [C.D("result-depends-on-hash-seed-or-uuids")]
         return []
     return []
